@@ -53,7 +53,7 @@ ATOMS_ALN = ['a~1', 'b~e.2', 'x~3', '"s~t"~4', '"~"']
 ROLES_ALN = {'default': [':r~1', ':r-of~e.2,3'],
              'amr': [':ARG0~1', ':ARG0-of~e.2,3'],
              'noop': [':r~1', ':r-of~e.2,3'],
-             'custom': [':r-of~1', ':r-of-of~e.2,3']}
+             'custom': [':s-of~1', ':s-of-of~e.2,3']}
 CONCEPTS_ALN = [NO_CONCEPT, 'x~9']
 
 
